@@ -3,8 +3,9 @@
 # binary cache for /repo's current tree.
 set -e
 export GOFLAGS=-mod=mod GOPROXY=off GOSUMDB=off GOTOOLCHAIN=local
-cd /verif
+cd "$(dirname "$(readlink -f "$0")")"
+V=$PWD
 mkdir -p bin evidence replays .cache
-(cd tools && go build -o /verif/bin/instr ./instr)
+(cd tools && go build -o $V/bin/instr ./instr)
 ./prepare.sh >/dev/null
 echo "setup ok"
